@@ -45,6 +45,29 @@ def eval_term(t, ev, depth=0):
         if p.endswith("::is_empty") and len(t[2]) == 1:
             n = eval_term(("call", "len", (t[2][0],)), ev, depth + 1)
             return _cmp("Eq", n, 0)
+        if p.split("::")[-1] in ("rem_euclid", "div_euclid") and p.startswith("core::num::") and len(t[2]) == 2:
+            a = eval_term(t[2][0], ev, depth + 1)
+            b = eval_term(t[2][1], ev, depth + 1)
+            if isinstance(a, int) and isinstance(b, int) and b > 0:
+                return a % b if p.endswith("rem_euclid") else a // b
+            return None
+        # (lo..=hi).contains(&x) / (lo..hi).contains(&x) with constant bounds
+        if p.split("::")[-1] == "contains" and len(t[2]) == 2 and ("ops::Range" in p):
+            r_ = t[2][0]
+            while r_[0] in ("promoted", "cast"):
+                r_ = r_[1]
+            lo = hi = None
+            if r_[0] == "call" and (r_[1] or "").endswith("RangeInclusive::<Idx>::new") and len(r_[2]) == 2:
+                lo, hi = eval_term(r_[2][0], ev, depth + 1), eval_term(r_[2][1], ev, depth + 1)
+            elif r_[0] == "agg" and (r_[1] or "").endswith("ops::Range") and len(r_) > 3:
+                fs = dict(r_[3])
+                if "start" in fs and "end" in fs:
+                    lo, hi = eval_term(fs["start"], ev, depth + 1), eval_term(fs["end"], ev, depth + 1)
+                    hi = hi - 1 if isinstance(hi, int) else None
+            x = eval_term(t[2][1], ev, depth + 1)
+            if isinstance(lo, int) and isinstance(hi, int) and isinstance(x, int):
+                return 1 if lo <= x <= hi else 0
+            return None
         # operator traits on (references to) integers: `c & 0x80` with c: &u8 is a call of <&u8 as BitAnd<u8>>::bitand
         opm = {"bitand": "BitAnd", "bitor": "BitOr", "bitxor": "BitXor", "add": "Add", "sub": "Sub", "mul": "Mul", "shl": "Shl", "shr": "Shr"}
         last = p.split("::")[-1]
@@ -76,7 +99,10 @@ _ARITH = {
     "BitOr": lambda a, b: a | b, "BitAnd": lambda a, b: a & b, "BitXor": lambda a, b: a ^ b,
     "Add": lambda a, b: a + b, "Sub": lambda a, b: a - b, "Mul": lambda a, b: a * b,
     "Shl": lambda a, b: a << b if 0 <= b < 128 else None, "Shr": lambda a, b: a >> b if 0 <= b < 128 else None,
-    "AddWithOverflow": lambda a, b: a + b, "SubWithOverflow": lambda a, b: a - b,
+    "AddWithOverflow": lambda a, b: a + b, "SubWithOverflow": lambda a, b: a - b, "MulWithOverflow": lambda a, b: a * b,
+    # Rust `/` and `%` truncate towards zero
+    "Div": lambda a, b: (abs(a) // abs(b)) * (1 if (a >= 0) == (b >= 0) else -1) if b else None,
+    "Rem": lambda a, b: (abs(a) % abs(b)) * (1 if a >= 0 else -1) if b else None,
 }
 
 
@@ -246,7 +272,11 @@ def filter_verdict(facts, body, prov, ev):
 def closure_feed(facts, closure_body):
     """For a closure handed to an iterator consumer (for_each, try_for_each, map, ...): (parent body, its Prov, the call
     block, the term of the receiver the items come from); None when the closure is not passed to a call of its parent."""
-    parent = facts.body(closure_body.parent) if closure_body.parent else None
+    # the lexical parent: for a closure nested in a closure that is the enclosing closure (its path minus the last segment)
+    lex = closure_body.path.rsplit("::{closure#", 1)[0] if "::{closure#" in closure_body.path else None
+    parent = facts.body(lex) if lex else None
+    if parent is None:
+        parent = facts.body(closure_body.parent) if closure_body.parent else None
     if parent is None:
         return None
     prov = flow.Prov(parent)
